@@ -43,6 +43,19 @@ type c12P struct {
 	Appends  []c12Append    `json:"appends"`
 	DelaysUs map[string]int `json:"delays_us,omitempty"` // scripted delay of every hit of a hook point
 	Random   uint64         `json:"random,omitempty"`    // !=0: PRNG delays at all store hooks with this seed
+	// Stall: the Nth datastore read of the height-index key of height H takes Ms of virtual time (one reader stuck in
+	// a slow lookup); the other readers' cancellations and wake-ups must not wait for it
+	Stall *c12Stall `json:"stall,omitempty"`
+	// Mid: something happens to the Store at MidUs, while readers are already waiting: restart (Stop+Start of the
+	// same object) | wipe (DeleteRange of the whole chain)
+	Mid   string `json:"mid,omitempty"`
+	MidUs int    `json:"mid_us,omitempty"`
+}
+
+type c12Stall struct {
+	H   uint64 `json:"h"`
+	Nth int    `json:"nth"`
+	Ms  int    `json:"ms"`
 }
 
 var storeHooks = []string{"store.GetByHeight.beforeWait", "store.flush.begin", "store.flush.afterPendingAppend", "store.flush.afterNotify", "store.flush.afterAdvanceHead", "store.flush.afterCommit"}
@@ -50,6 +63,25 @@ var storeHooks = []string{"store.GetByHeight.beforeWait", "store.flush.begin", "
 func TestC12(t *testing.T) {
 	r := mon.Open(t, "C12")
 	mon.Register(r, "script", c12Run)
+	mon.Register(r, "stall", c12StallRun)
+	// one reader stuck in a slow datastore read (its first lookup or its re-check after subscribing) while another
+	// reader is cancelled and a third one's header is appended. Runs in REAL time, outside a bubble: a goroutine that
+	// waits for a mutex held by the stuck reader is not "durably blocked" for synctest, virtual time would stop.
+	for rep := 0; rep < r.N(1, 10); rep++ {
+		for _, wb := range []int{1, 64} {
+			for _, nth := range []int{1, 2} {
+				for _, gap := range []bool{false, true} {
+					h3 := uint64(6)
+					if gap {
+						h3 = 8
+					}
+					p := c12P{WB: wb, Flavour: []string{"plain", "ctx"}[rep%2], Base: 5, Stall: &c12Stall{H: 11, Nth: nth},
+						Readers: []c12Reader{{H: 11}, {H: 10}, {H: h3}}, Appends: []c12Append{{Hs: []uint64{h3}}}}
+					mon.Emit(r, "stall", p, "stall")
+				}
+			}
+		}
+	}
 	// scripted grid: append before / inside / after the reader's lookup..Wait window, contiguous or gapped,
 	// combined with a delay at one of the flush phases
 	for _, wb := range []int{1, 64} {
@@ -97,6 +129,20 @@ func TestC12(t *testing.T) {
 					p.Appends = []c12Append{{AtUs: 5000, Hs: hs}, {AtUs: 30000, Hs: []uint64{first + 3}}}
 					mon.Emit(r, "script", p, "script/empty-store")
 				}
+			}
+		}
+	}
+	// readers keep waiting across a restart of the Store object / a wipe of the whole chain
+	for _, wb := range []int{1, 64} {
+		for _, mid := range []string{"restart", "wipe"} {
+			for _, hs := range [][]uint64{{6}, {6, 7}, {8}} {
+				p := c12P{WB: wb, Flavour: "plain", Base: 5, Mid: mid, MidUs: 10000}
+				for _, h := range hs {
+					p.Readers = append(p.Readers, c12Reader{H: h, StartUs: 1000})
+				}
+				p.Readers = append(p.Readers, c12Reader{H: 9, StartUs: 2000, CancelUs: 50000})
+				p.Appends = []c12Append{{AtUs: 20000, Hs: hs}}
+				mon.Emit(r, "script", p, "script/"+mid)
 			}
 		}
 	}
@@ -151,6 +197,7 @@ func TestC12(t *testing.T) {
 const promptBound = 200 * time.Millisecond
 
 type c12Res struct {
+	doneAt       time.Duration // since t0
 	done         bool
 	hdr          *vh.Header
 	err          error
@@ -222,7 +269,7 @@ func c12Run(c *mon.Case, p c12P) {
 				hAt := e.st.Height()
 				h, err := e.st.GetByHeight(ctx, rd.H)
 				mu.Lock()
-				res[i] = c12Res{done: true, hdr: h, err: err, elapsed: time.Since(st), heightAtCall: hAt}
+				res[i] = c12Res{done: true, doneAt: time.Since(t0), hdr: h, err: err, elapsed: time.Since(st), heightAtCall: hAt}
 				mu.Unlock()
 			}()
 			if rd.CancelUs > 0 {
@@ -234,7 +281,31 @@ func c12Run(c *mon.Case, p c12P) {
 				}()
 			}
 		}
+		if p.Mid != "" {
+			wg.Add(1)
+			go func() {
+				defer wg.Done()
+				at(p.MidUs)
+				switch p.Mid {
+				case "restart":
+					if err := e.stop(); err != nil {
+						c.Violation("stop-fails", fmt.Sprint(err), nil)
+						return
+					}
+					if err := e.start(); err != nil {
+						c.Violation("restart-fails", fmt.Sprint(err), nil)
+					}
+				case "wipe":
+					ctx, cancel := vctx(time.Minute)
+					if err := e.st.DeleteRange(ctx, 1, uint64(p.Base)+1); err != nil {
+						c.Violation("wipe-fails", fmt.Sprint(err), nil)
+					}
+					cancel()
+				}
+			}()
+		}
 		appended := map[uint64]bool{}
+		appendedAt := map[uint64]int{}
 		var amu sync.Mutex
 		for _, ap := range p.Appends {
 			wg.Add(1)
@@ -245,6 +316,7 @@ func c12Run(c *mon.Case, p c12P) {
 				err := e.appendHs(ap.Hs...)
 				for _, h := range ap.Hs {
 					appended[h] = true
+					appendedAt[h] = ap.AtUs
 				}
 				amu.Unlock()
 				if err != nil {
@@ -363,9 +435,121 @@ func c12Run(c *mon.Case, p c12P) {
 		}
 		sort.Strings(dk)
 		mode := "scripted:" + strings.Join(dk, ",")
+		if p.Mid != "" {
+			mode += " mid=" + p.Mid
+		}
 		if p.Random != 0 {
 			mode = "random"
 		}
 		c.Class("wb=%d %s readers=%s appends=%d %s", p.WB, p.Flavour, strings.Join(classes, "+"), len(p.Appends), mode)
 	})
+}
+
+// stallBound is a REAL-time bound (this runner is not in a bubble): how long a cancelled or served reader may take
+// to return while another reader is parked inside a datastore read. The unchanged code needs microseconds.
+const stallBound = 20 * time.Second
+
+// c12StallRun: reader 0 is parked inside the Nth datastore read of its height-index key; then reader 1 is cancelled
+// and reader 2's header is appended. Neither may wait for reader 0.
+func c12StallRun(c *mon.Case, p c12P) {
+	e := &env{c: c, d: memds.New(), cfg: Cfg{SC: 8, IC: 8, WB: p.WB, Flavour: p.Flavour}, chain: newChain(p.Base + 40), P: map[uint64]bool{}}
+	if err := e.open(); err != nil {
+		c.Trivial()
+		return
+	}
+	// the datastore hook is installed before the Store starts and never changed afterwards
+	parked, release := make(chan struct{}), make(chan struct{})
+	var reads atomic.Int64
+	key := fmt.Sprintf("/headers/%d", p.Stall.H)
+	e.d.Yield = func(op, k string) {
+		if (op == "get" || op == "txnget") && k == key && int(reads.Add(1)) == p.Stall.Nth {
+			close(parked)
+			select {
+			case <-release:
+			case <-time.After(3 * stallBound):
+			}
+		}
+	}
+	if err := e.start(); err != nil {
+		c.Violation("start-fails-on-empty", fmt.Sprint(err), nil)
+		return
+	}
+	defer e.teardown()
+	base := make([]uint64, p.Base)
+	for i := range base {
+		base[i] = uint64(i + 1)
+	}
+	if err := e.appendHs(base...); err != nil {
+		c.Violation("append-fails", fmt.Sprint(err), nil)
+		return
+	}
+	_ = e.st.Sync(context.Background())
+	type out struct {
+		h   *vh.Header
+		err error
+	}
+	ctxs := make([]context.Context, 3)
+	cancels := make([]context.CancelFunc, 3)
+	dones := make([]chan out, 3)
+	startReader := func(i int) {
+		ctxs[i], cancels[i] = context.WithCancel(context.Background())
+		dones[i] = make(chan out, 1)
+		go func() {
+			h, err := e.st.GetByHeight(ctxs[i], p.Readers[i].H)
+			dones[i] <- out{h, err}
+		}()
+	}
+	// readers 1 and 2 first, so that they are registered waiters; give them (real) time to get there
+	startReader(1)
+	startReader(2)
+	time.Sleep(20 * time.Millisecond)
+	startReader(0)
+	released := false
+	defer func() {
+		if !released {
+			close(release)
+		}
+		for i := range cancels {
+			cancels[i]()
+		}
+	}()
+	select {
+	case <-parked:
+	case <-time.After(stallBound):
+		c.Inconclusive("reader 0 did not reach datastore read #%d of %s", p.Stall.Nth, key)
+		return
+	}
+	c.Count("stalled_reads", 1)
+	c.Class("stall wb=%d %s read#%d appended=%d", p.WB, p.Flavour, p.Stall.Nth, p.Readers[2].H)
+	// (a) cancellation releases reader 1 although reader 0 is stuck
+	cancels[1]()
+	select {
+	case o := <-dones[1]:
+		if o.err == nil {
+			c.Violation("returned-unstored-header", fmt.Sprintf("cancelled reader of %d got %v", p.Readers[1].H, o.h), nil)
+		}
+	case <-time.After(stallBound):
+		c.Violation("cancel-does-not-release-while-another-reader-is-in-a-slow-lookup", fmt.Sprintf("reader of %d was cancelled but has not returned after %v (real time) while the reader of %d sits in datastore read #%d", p.Readers[1].H, stallBound, p.Stall.H, p.Stall.Nth), nil)
+	}
+	// (b) the append wakes reader 2 although reader 0 is stuck
+	if err := e.appendHs(p.Appends[0].Hs...); err != nil {
+		c.Violation("append-fails", fmt.Sprint(err), nil)
+		return
+	}
+	select {
+	case o := <-dones[2]:
+		if o.err != nil || o.h == nil || o.h.Height() != p.Readers[2].H {
+			c.Violation("lost-wakeup/stalled-neighbour/reader-error", fmt.Sprintf("reader of %d: %v, %v", p.Readers[2].H, o.h, o.err), nil)
+		}
+	case <-time.After(stallBound):
+		c.Violation("wakeup-waits-for-another-readers-slow-lookup", fmt.Sprintf("height %d was appended but its reader has not returned after %v (real time) while the reader of %d sits in datastore read #%d", p.Readers[2].H, stallBound, p.Stall.H, p.Stall.Nth), nil)
+	}
+	released = true
+	close(release)
+	cancels[0]()
+	select {
+	case <-dones[0]:
+	case <-time.After(stallBound):
+		c.Violation("cancel-does-not-release", "the stalled reader did not return after its read was released and its context cancelled", nil)
+	}
 }
